@@ -1,3 +1,4 @@
+import PedalProofs.SectionsIRLemmas
 import PedalProofs.SectionsLemmas
 /-
 C17 — sections split a submission losslessly and report whole-file line numbers.
